@@ -66,6 +66,9 @@ KW_CELLS = [
     ("unknown generator alone", {"e9": "A"}, "raise"),
     ("unknown generator next to a canonical blade", {"e9": "A", "e1": "B"}, "raise"),
     ("two spellings of one blade", {"e12": "A", "e21": "B"}, "raise"),
+    ("the non-canonical spelling first", {"e21": "B", "e12": "A"}, "raise"),
+    ("two non-canonical spellings of one blade", {"e132": "A", "e312": "B"}, "raise"),
+    ("two non-canonical spellings next to another blade", {"e231": "A", "e2": "C", "e213": "B"}, "raise"),
 ]
 
 
@@ -108,7 +111,8 @@ def check_kw_rekey(ctx, repo, qual=NEW):
                           cell=label, result=got, expected=want)
 
 
-@rule("C15.kw-rekey", props=["C15", "C01", "C14"], min_instances=9, mutants=[
+@rule("C15.kw-rekey", props=["C15", "C01", "C14"], min_instances=12, mutants=[
+    ("a duplicate is looked for among the spellings as typed only", ("multivector", "            for key in list(items.keys()):\n                if key not in algebra.canon2bin:\n                    target, swaps = algebra._blade2canon(key)\n                    if target not in algebra.canon2bin or target in items:", "            given = tuple(items)\n            for key in given:\n                if key not in algebra.canon2bin:\n                    target, swaps = algebra._blade2canon(key)\n                    if target not in algebra.canon2bin or target in given:")),
     ("negate on even parity", ("multivector", "items[target] = - value if swaps % 2 else value", "items[target] = value if swaps % 2 else - value")),
     ("never negate", ("multivector", "items[target] = - value if swaps % 2 else value", "items[target] = value")),
 ])
